@@ -124,3 +124,13 @@ impl Rng {
         r.min(max)
     }
 }
+
+/// Generation depth: 1 = quick tier, 2 = thorough tier (longer histories, more records and
+/// messages per run). Read by Phase A only; Phase B sees explicit scenarios and never looks at it.
+static DEPTH: std::sync::atomic::AtomicU32 = std::sync::atomic::AtomicU32::new(1);
+pub fn set_depth(d: u32) {
+    DEPTH.store(d.max(1), std::sync::atomic::Ordering::Relaxed);
+}
+pub fn depth() -> usize {
+    DEPTH.load(std::sync::atomic::Ordering::Relaxed) as usize
+}
